@@ -213,3 +213,48 @@ fn c20_chip_count() {
     core::mem::forget(r);
     core::mem::forget(a);
 }
+
+//@ harness: c13_chip_order_inner props=C13 tier=quick class=functional covers=2 mem=10 timeout=900 est=40
+//@ bounds: inner-barrel lane with exactly one decoded chip, arbitrary chip id and lane number: check_chip_id_order is Err iff chip id != lane number
+#[kani::proof]
+#[kani::unwind(4)]
+#[kani::stub(alloc::fmt::format, crate::vsup::stub_format)]
+#[kani::stub(core::fmt::write, crate::vsup::stub_write)]
+fn c13_chip_order_inner() {
+    let mut a = LaneAlpideFrameAnalyzer::new(Layer::Inner, None, None);
+    let chip: u8 = kani::any();
+    kani::assume(chip <= 0xF);
+    let lane: u8 = kani::any();
+    a.lane_number = lane;
+    a.chip_data.push(AlpideFrameChipData { chip_id: chip, bunch_counter: Some(1) });
+    let r = a.check_chip_id_order();
+    assert!(r.is_err() == (chip != lane), "inner barrel: chip id must equal the lane number");
+    kani::cover!(r.is_ok(), "chip id equals lane");
+    kani::cover!(r.is_err(), "chip id differs");
+    core::mem::forget(r);
+    core::mem::forget(a);
+}
+
+//@ harness: c20_chip_order_ob props=C20,C13 tier=quick class=functional covers=2 mem=12 timeout=900 est=60
+//@ bounds: outer-barrel lane with two decoded chips of arbitrary ids and user-configured legal orders [[0,1],[9,10]]: check_chip_id_order is Err iff the observed order is none of the configured ones; no configured orders => always Ok
+#[kani::proof]
+#[kani::unwind(6)]
+#[kani::stub(alloc::fmt::format, crate::vsup::stub_format)]
+#[kani::stub(core::fmt::write, crate::vsup::stub_write)]
+fn c20_chip_order_ob() {
+    let orders: [Vec<u8>; 2] = [vec![0, 1], vec![9, 10]];
+    let configured: bool = kani::any();
+    let mut a = LaneAlpideFrameAnalyzer::new(Layer::Outer, if configured { Some(&orders[..]) } else { None }, None);
+    let (c0, c1): (u8, u8) = (kani::any(), kani::any());
+    kani::assume(c0 <= 0xF && c1 <= 0xF);
+    a.chip_data.push(AlpideFrameChipData { chip_id: c0, bunch_counter: Some(1) });
+    a.chip_data.push(AlpideFrameChipData { chip_id: c1, bunch_counter: Some(1) });
+    let r = a.check_chip_id_order();
+    let legal = (c0 == 0 && c1 == 1) || (c0 == 9 && c1 == 10);
+    assert!(r.is_err() == (configured && !legal), "outer barrel: chip order must be one of the configured orders");
+    kani::cover!(configured && legal, "configured, legal order");
+    kani::cover!(configured && !legal && c0 == 1 && c1 == 0, "configured, reversed order rejected");
+    core::mem::forget(r);
+    core::mem::forget(a);
+    core::mem::forget(orders);
+}
